@@ -4,7 +4,7 @@
    model's algorithms: a plain functional map replayed over the history (Registry.pstep),
    declarative conditions on transcripts (firstn, no loop), and for concurrent first Gets the
    property itself (all results equal, exactly one Auto change). *)
-From SC Require Import Base.Prelude Router.Registry Router.Pump Router.Route Router.RouterGet Router.RouterCb Router.RegistryW Router.NameDefault.
+From SC Require Import Base.Prelude Router.Registry Router.Pump Router.Route Router.RouterGet Router.RouterCb Router.RegistryW Router.RouteW Router.NameDefault.
 
 Inductive c12case :=
 | KHist (g : cfg) (first : Z) (ops : list hop) (obs : list hres) (log : list change)
@@ -17,6 +17,11 @@ Inductive c12case :=
 (* bare registry built from any subset of the options, every Get with its own fallback/factory
    outcome (RegistryW.v); obs carry the number of fallback and factory calls made *)
 | KRegW (o : wopts) (ops : list wop) (obs : list wres) (log : list change)
+(* a generated router built from any subset of the options; every lookup (Router.Get, GetXxxClient,
+   unary and streaming methods) with its own fallback/factory outcome (RouteW.v); fe/ae = the
+   statuses of the errors this router's fallback and factory return; obs carry BOTH results of
+   every Get and the number of fallback and factory calls *)
+| KRouteW (o : wopts) (fe ae : status) (ops : list xop) (obs : list xres) (log : list change)
 | KDefault (name : string) (r : request) (obs : request)
 | KDefaultStream (name : string) (recv_ok : bool) (r : request) (obs : request)
 | KDefaultSeq (name : string) (steps : list dstep) (obs : list mvalue)
@@ -52,6 +57,9 @@ Definition agrees (c : c12case) : bool :=
   | KRegW o ops obs log =>
       let '(s, rs) := wrun o (init 1) ops in
       list_eqb wres_eqb obs rs && list_eqb change_eqb log (wlog o s)
+  | KRouteW o fe ae ops obs log =>
+      let '(s, rs) := xrun o fe ae (init 1) ops in
+      list_eqb xres_eqb obs rs && list_eqb change_eqb log (wlog o s)
   | KDefault name r obs => request_eqb obs (unary_interceptor name r)
   | KDefaultStream name ok r obs => request_eqb obs (stream_recv name ok r)
   | KDefaultSeq name steps obs => list_eqb mvalue_eqb obs (run_seq name steps)
@@ -70,7 +78,9 @@ Definition is_prefix_tr (t : transcript) (h : option md) (ms : list msg) (tr : o
   option_eqb md_eqb (t_header t) h && list_eqb Z.eqb (t_msgs t) ms
   && option_eqb md_eqb (t_trailer t) tr && option_eqb status_eqb (t_status t) st.
 
-(* what the caller must have seen, stated without the loop *)
+(* what the caller must have seen, stated without the loop.  The child must have been cancelled when
+   the caller's Send failed; whether its context is also cancelled once the stream has ended is not
+   part of the property (agrees still compares it with the model: the code does not) *)
 Definition stream_ok (c : child_script) (k : caller_script) (t : transcript) : bool :=
   match open_err c with
   | Some e => is_prefix_tr t None [] None (Some e)
@@ -85,8 +95,8 @@ Definition stream_ok (c : child_script) (k : caller_script) (t : transcript) : b
               | Some (j, e) =>
                   if (0 <=? j) && (j <? zlen (msgs c))
                   then is_prefix_tr t (Some (hdr c)) (firstn (Z.to_nat j) (msgs c)) None (Some e) && t_cancelled t
-                  else is_prefix_tr t (Some (hdr c)) (msgs c) (trl c) (fin c) && negb (t_cancelled t)
-              | None => is_prefix_tr t (Some (hdr c)) (msgs c) (trl c) (fin c) && negb (t_cancelled t)
+                  else is_prefix_tr t (Some (hdr c)) (msgs c) (trl c) (fin c)
+              | None => is_prefix_tr t (Some (hdr c)) (msgs c) (trl c) (fin c)
               end
           end
       end
@@ -238,6 +248,53 @@ Definition regw_ok (o : wopts) (ops : list wop) (obs : list wres) (log : list ch
   let '(p, rs) := prunW o (mkP pempty [] 1) ops in
   list_eqb wres_sim obs rs && list_eqb change_eqb log (if w_cb o then plog p else []).
 
+(* what a Get (raw or typed) must return for the plain map's answer: the client and no error, or
+   an error with code NotFound (the value next to an error is not judged: Go callers must ignore it;
+   the message text is not part of the property) *)
+Definition got_ok (target : getres) (v : client) (e : option status) : bool :=
+  match target, e with
+  | Got c, None => v =? c
+  | NotFound _, Some (code, _) => code =? not_found_code
+  | _, _ => false
+  end.
+
+(* histories on a generated router with per-call outcomes: replay RegistryW's plain map; every RPC
+   went exactly once to the client the map holds (routed_ok), or to nobody with NotFound; the typed
+   Add refused nil; the fallback and the factory were called as often as the map says *)
+Fixpoint xhist_ok (o : wopts) (p : pstate) (ops : list xop) (obs : list xres) : option pstate :=
+  match ops, obs with
+  | [], [] => Some p
+  | op :: ops', x :: obs' =>
+      let next p' ok := if ok : bool then xhist_ok o p' ops' obs' else None in
+      let lookup n fbo fao (k : pstate -> getres -> Z -> Z -> option pstate) :=
+        match pstepW o p (WGet n fbo fao) with
+        | (p', WR (RGet tgt) j1 j2) => k p' tgt j1 j2
+        | _ => None
+        end in
+      match op, x with
+      | XAdd n c, XPanic => next p (c =? nil_client)
+      | XAdd n c, XR r =>
+          if c =? nil_client then None
+          else let '(p', WR r' _ _) := pstepW o p (WAdd n c) in next p' (rres_sim r r')
+      | XRemove n, XR r => let '(p', WR r' _ _) := pstepW o p (WRemove n) in next p' (rres_sim r r')
+      | XHas n, XR r => let '(p', WR r' _ _) := pstepW o p (WHas n) in next p' (rres_sim r r')
+      | XGetRaw n fbo fao, XGot v e k1 k2 | XGetTyped n fbo fao, XGot v e k1 k2 =>
+          lookup n fbo fao (fun p' tgt j1 j2 => next p' ((k1 =? j1) && (k2 =? j2) && got_ok tgt v e))
+      | XUnary n fbo fao u, XCalled calls t k1 k2 =>
+          lookup n fbo fao (fun p' tgt j1 j2 => next p' ((k1 =? j1) && (k2 =? j2) && routed_ok tgt n calls t (unary_ok u t)))
+      | XStream n fbo fao c k, XCalled calls t k1 k2 =>
+          lookup n fbo fao (fun p' tgt j1 j2 => next p' ((k1 =? j1) && (k2 =? j2) && routed_ok tgt n calls t (stream_ok c k t)))
+      | _, _ => None
+      end
+  | _, _ => None
+  end.
+
+Definition routew_ok (o : wopts) (ops : list xop) (obs : list xres) (log : list change) : bool :=
+  match xhist_ok o (mkP pempty [] 1) ops obs with
+  | Some p => list_eqb change_eqb log (if w_cb o then plog p else [])
+  | None => false
+  end.
+
 Definition default_ok (name : string) (applied : bool) (r obs : request) : bool :=
   match shape r with
   | NameString s =>
@@ -279,6 +336,7 @@ Definition C12_ok (c : c12case) : bool :=
   | KSched g first pre ths sched obs log final => sched_ok g pre ths obs log final
   | KSchedCb g first pre ths sched obs cbs final => cb_ok g first pre ths sched obs cbs final
   | KRegW o ops obs log => regw_ok o ops obs log
+  | KRouteW o fe ae ops obs log => routew_ok o ops obs log
   | KDefault name r obs => default_ok name true r obs
   | KDefaultStream name ok r obs => default_ok name ok r obs
   | KDefaultSeq name steps obs => seq_ok name steps obs
@@ -287,7 +345,22 @@ Definition C12_ok (c : c12case) : bool :=
       seq_ok name (map (fun r => let '(ok, t, v) := r in ((if ok : bool then 1 else 2), t, v)) rs) obs
   end.
 
-Definition C12_guard (c : c12case) : bool := true.
+(* hypothesis of the sequence/session theorems: a message type has at most one field whose text
+   name is "name" (protobuf guarantees unique field names; the model looks the field up with
+   ByTextName = first match, the predicate quantifies over all fields) *)
+Definition named (f : fdesc) : bool := String.eqb (ftext f) "name".
+Definition type_wf (t : mtype) : bool := zlen (filter named (tfields t)) <=? 1.
+Definition steps_wf (steps : list dstep) : bool := forallb (fun s => type_wf (snd (fst s))) steps.
+Definition recvd_wf (rs : list recvd) : bool := forallb (fun r => type_wf (snd (fst r))) rs.
 
+Definition C12_guard (c : c12case) : bool :=
+  match c with
+  | KDefaultSeq _ steps _ => steps_wf steps
+  | KStreamSession _ rs _ => recvd_wf rs
+  | _ => true
+  end.
+
+(* a case outside the guard (a type description no protobuf descriptor can produce) is not passed
+   over in silence: it is reported as a mismatch, so the guard holds of every case of an OK run *)
 Definition judge (c : c12case) : Z :=
-  verdict (agrees c) (if C12_guard c then C12_ok c else true) None.
+  if C12_guard c then verdict (agrees c) (C12_ok c) None else 1.
